@@ -10,7 +10,17 @@ THEOREMS = {"SmVerif.Props.C05": ["SmVerif.C05." + n for n in [
     "c05_decoded_tokens", "c05_decoded_wf_partial", "c05_decoded_wf_needs_size",
     "c05_lookup_safe", "c05_lookup_safe_any",
     "c05_serialize_safe", "c05_serialize_rmi_safe", "c05_serialize_sorted", "c05_vlqDiff_total",
-    "c05_reencode_decodes_partial", "c05_rmi_safe"]]}
+    "c05_reencode_decodes_partial", "c05_rmi_safe"]],
+    # crash-freedom of the other modelled operations the property lists, proved in their own packages
+    "SmVerif.Props.C04": ["SmVerif.C04.c04_lookup_safe"],
+    "SmVerif.Props.C08": ["SmVerif.C08.c08_safe_flatten", "SmVerif.C08.c08_safe_lookup", "SmVerif.C08.c08_lookup_no_underflow"],
+    "SmVerif.Props.C09": ["SmVerif.C09.c09_safe"],
+    "SmVerif.Props.C12": ["SmVerif.C12.c12_no_false_eof", "SmVerif.C12.c12_errors_coincide"],
+    "SmVerif.Props.C14": ["SmVerif.C14.c14_safe"],
+    "SmVerif.Props.C15": ["SmVerif.C15.c15_no_panic", "SmVerif.C15.c15_get_line", "SmVerif.C15.c15_slice"],
+    "SmVerif.Props.C17": ["SmVerif.C17.c17_safe", "SmVerif.C17.c17_safe_new"],
+    "SmVerif.Props.C18": ["SmVerif.C18.c18_locate"],
+    "SmVerif.Props.C20": ["SmVerif.C20.c20_total", "SmVerif.C20.c20_in_bounds"]}
 TRUSTED = BASE_TRUST + ["bytes.all is an exploration op on the real code only (panic hook + overflow checks, 10 s watchdog, counting allocator); JSON parsing, serde's recursion limit, allocation and wall-clock are outside the Lean model"]
 ASSUMPTIONS = ["serialisation is exercised only while the greatest generated line stays below 100000", "allocation bound: 4096 x input + 8 MiB peak",
                "c05_decoded_wf_partial and c05_reencode_decodes_partial carry size bounds (mappings string shorter than 2^32 bytes, at most 2^32 sources and names, i.e. a document below 4 GiB): the model counts lines in an unbounded Nat where the code has `dst_line as u32` (c05_decoded_wf_needs_size is the counterexample without the bound); c05_decoded_tokens is the unconditional part"]
